@@ -214,10 +214,10 @@ def standard_parsing_functions(Block: Any, Tx: Any) -> list[Any]:
 
     def parse_int_6(f: IO[bytes]) -> int:
         b = f.read(6) + b"\0\0"
-        return struct.unpack(b, "<L")[0]  # type: ignore[arg-type,no-any-return]
+        return struct.unpack("<Q", b)[0]  # type: ignore[no-any-return]
 
     def stream_int_6(f: IO[bytes], v: int) -> None:
-        f.write(struct.pack(v, "<L")[:6])  # type: ignore[arg-type]
+        f.write(struct.pack("<Q", v)[:6])
 
     more_parsing = [
         ("A", (PeerAddress.parse, lambda f, peer_addr: peer_addr.stream(f))),
